@@ -167,7 +167,7 @@ def run_scenario(sc, base, fast=True, mode='each', real_passes=None, on_test=Non
                 s = stats.stats.get(repr(p))
                 return (s.worked, s.failed, s.totally_executed) if s else (0, 0, 0)
 
-            passes = real_passes if real_passes is not None else mk_passes(sc['passes'])
+            passes = real_passes if real_passes is not None else mk_passes(sc.get('passes', []))
             o.pass_objs = passes
             out = []
             if mode == 'each':
@@ -201,6 +201,16 @@ def run_scenario(sc, base, fast=True, mode='each', real_passes=None, on_test=Non
                 pg = {k: mk_passes(grp.get(k, [])) for k in ('first', 'main', 'last')}
                 cv = CVise(tm, False)
                 code = 0
+                o.after_pass = []
+                orig_rp = tm.run_pass
+
+                def run_pass(p):
+                    try:
+                        orig_rp(p)
+                    finally:
+                        o.after_pass.append((repr(p), joint(), sorted(os.listdir(tmpd))))
+
+                tm.run_pass = run_pass
                 try:
                     cv.reduce(pg, False)
                 except BaseException as e:
@@ -254,7 +264,10 @@ def coq_scenario(sc, perm, mode='each'):
 
     g = (f'(mkcfg {cfg["N"]} {b(cfg["silent"])} {b(cfg["die"])} {optz(cfg["maximp"])} {b(cfg["nogiveup"])} '
          f'{optz(cfg["also"])} {cfg["giveup"]} {cfg["maxto"]} {cfg["maxcrash"]} {cfg["maxextra"]})')
-    rc = f'(mkrcfg {g} {b(cfg["no_cache"])} {cfg["skipn"] or 0} {b(cfg["save_temps"])} {sc.get("fuel", 60)})'
+    from fractions import Fraction
+    fr = Fraction(sc.get('stopping_threshold', 1.0))
+    thr = (fr.numerator, fr.denominator)
+    rc = f'(mkrcfg {g} {b(cfg["no_cache"])} {cfg["skipn"] or 0} {b(cfg["save_temps"])} ({thr[0]})%Z ({thr[1]})%Z {sc.get("fuel", 60)})'
     rules = [([((a[0], inv[a[1]]) + tuple(a[2:])) for a in atoms], out) for atoms, out in sc['rules']]
     disk = '[' + '; '.join(coq_content(sc['files'][l][1]) for l in perm) + ']'
     sch = '[' + ';'.join(str(x) for x in sc.get('sched', [])) + ']' if sc.get('sched') else '(@nil nat)'
